@@ -485,6 +485,7 @@ class UnitBuild:
                 self.emit_item(part)
         if open_wrap is not None:
             self.gen.add('}', 'gen')
+        self.autoconst()
         if getattr(self, 'atoms_at', None) is not None:
             alltext = '\n'.join(l for l, o in zip(self.gen.lines, self.gen.origin) if o[0] in ('repo', 'contract', 'prelude', 'generated'))
             en = re.findall(r'expanded_name!\(\s*(\w+)\s+"([^"]*)"\s*\)', alltext)
@@ -555,6 +556,37 @@ class UnitBuild:
         return self.gen.text()
 
     # ------------------------------------------------------------------
+    def autoconst(self):
+        """rule R42: a file-level `const NAME: T = <literal expression>;` of a source file from which a function is extracted is pulled
+        in automatically when the extracted text mentions NAME and the generated file does not define it (a refactoring that names
+        a magic number must not make the unit undecided).  Only integer / bool / char / string-literal constants."""
+        repo_text = '\n'.join(l for l, o in zip(self.gen.lines, self.gen.origin) if o[0] == 'repo')
+        whole = '\n'.join(self.gen.lines)
+        files = sorted(set(o[1] for o in self.gen.origin if o[0] == 'repo' and o[1]))
+        added = []
+        for f in files:
+            try:
+                src = self.src(f)
+            except ExtractError:
+                continue
+            for m in re.finditer(r'(?m)^(?:pub(?:\([a-z]+\))?\s+)?const\s+([A-Z][A-Z0-9_]*)\s*:\s*(u8|u16|u32|u64|usize|i32|i64|isize|bool|char)\s*=\s*([^;{}]+);', src.masked):
+                name = m.group(1)
+                if not re.search(r'\b%s\b' % name, repo_text):
+                    continue
+                if re.search(r'\b(?:const|static)\s+%s\b' % name, whole) or name in added:
+                    continue
+                text = 'pub const %s: %s = %s;' % (name, m.group(2), src.text[m.start(3):m.end(3)].strip())
+                added.append(name)
+                # before the closing of the verus! block
+                k = max(i for i, l in enumerate(self.gen.lines) if l.startswith('} // verus!'))
+                self.gen.lines.insert(k, text)
+                self.gen.origin.insert(k, ('repo', f, src.line_of(m.start()), None))
+                for fn in self.functions:
+                    if fn.get('gen_start', 0) > k:
+                        fn['gen_start'] += 1
+                        fn['gen_end'] += 1
+        self.count('R42-autoconst', len(added))
+
     def emit_item(self, it):
         s = self.src(it.file)
         if it.kind == 'fn':
